@@ -63,7 +63,7 @@ pub enum Op {
 pub type Plan = Vec<Op>;
 
 /// Number of static data families (see fam.rs). Kept here so the generator does not depend on fam.
-pub const NFAM: usize = 12;
+pub const NFAM: usize = 13;
 
 /// Model-side knowledge of what each static family accesses (written down independently of shred's
 /// `reads()` / `writes()`; C06 checks the latter).
@@ -82,7 +82,39 @@ pub fn family_access(k: u8) -> (Vec<Res>, Vec<Res>) {
         9 => (vec![r(5)], vec![r(4)]),
         10 => (vec![r(6), r(7)], vec![r(0)]),
         11 => (vec![r(1), r(1)], vec![]),
+        12 => (vec![r(5)], vec![r(6)]),
         _ => panic!("harness: family index out of range"),
+    }
+}
+
+/// resources a family reaches through a default-providing accessor (created by `setup` if absent);
+/// `Option<..>` and `ReadExpect`/`WriteExpect` members create nothing
+pub fn family_provides(k: u8) -> Vec<Res> {
+    let r = |t: usize| Res::new(t, 0);
+    match k {
+        0 => vec![],
+        1 => vec![r(0)],
+        2 => vec![r(1)],
+        3 => vec![r(0), r(2)],
+        4 => vec![r(3), r(1), r(4)],
+        5 => vec![],
+        6 => vec![r(0)],
+        7 => vec![r(2), r(7)],
+        8 => vec![],
+        9 => vec![r(5)],
+        10 => vec![r(6), r(0), r(7)],
+        11 => vec![r(1)],
+        12 => vec![r(5), r(6)],
+        _ => panic!("harness: family index out of range"),
+    }
+}
+
+/// number of members of the family that use the counting custom handler
+pub fn family_handler_calls(k: u8) -> u64 {
+    if k == 12 {
+        2
+    } else {
+        0
     }
 }
 
@@ -439,6 +471,8 @@ pub struct GenCfg {
     pub tl_in_batch: bool,
     pub max_n: usize,
     pub batch_decl: bool,
+    /// thread-local systems inside batches declare resources (false: they access nothing)
+    pub tl_in_batch_access: bool,
 }
 
 impl Default for GenCfg {
@@ -463,6 +497,7 @@ impl Default for GenCfg {
             tl_in_batch: true,
             max_n: 3,
             batch_decl: true,
+            tl_in_batch_access: true,
         }
     }
 }
@@ -477,14 +512,15 @@ impl NameGen {
             return String::new();
         }
         let mut name = if src.chance(cfg.p_odd_name, 16) {
-            let j = src.pick(3);
-            match src.pick(5) {
-                0 => format!("a b{}", j),
-                1 => format!("a-b{}", j),
-                2 => format!("a/b{}", j),
-                3 => format!("a_b{}", j),
-                _ => format!("x y-z/{}", i),
+            // arbitrary short strings over letters and the characters that get sanitised, so that
+            // runs of separators, leading / trailing separators and separator-only names occur
+            const ALPHA: [char; 7] = ['a', 'b', ' ', '-', '/', '_', 'c'];
+            let len = 1 + src.pick(5);
+            let mut n = String::new();
+            for _ in 0..len {
+                n.push(ALPHA[src.pick(ALPHA.len())]);
             }
+            n
         } else {
             format!("s{}", i)
         };
@@ -558,7 +594,11 @@ fn gen_builder(
             continue;
         }
         if (depth == 0 || cfg.tl_in_batch) && src.chance(cfg.p_tl, 16) {
-            let (reads, writes) = gen_access(src, cfg, universe);
+            let (mut reads, mut writes) = gen_access(src, cfg, universe);
+            if depth > 0 && !cfg.tl_in_batch_access {
+                reads.clear();
+                writes.clear();
+            }
             ops.push(Op::Tl { reads, writes });
             continue;
         }
